@@ -29,16 +29,22 @@ TIERS = {'quick': dict(runs=1120, budget_s=170, chunk=7, selftest=3),
 V = sched.V
 SCALES = [1.0, 0.1, 0.01]
 
-# ladder thresholds, calibrated on the repaired tree over 4 000 ladder worlds
+# ladder thresholds, calibrated on the repaired tree over 4 000 + 1 600 ladder worlds
 # (tools/calibrate_c12.py, DESIGN.md 3.5).  Worst clean excess of the estimates
-#   D(0.01) - 0.2*D(0.1):  weak/3-D 2.9e-3, weak/2-D 9.9e-3, strong/3-D 2.5e-2,
-#   strong/2-D 8.5e-2;     D(0.1) - 0.5*D(1) <= 5.3e-3 everywhere;
+#   D(0.01) - 0.2*D(0.1):  weak/3-D 2.9e-3, weak/2-D 9.9e-3, strong/3-D 7.2e-2 (heavy
+#   tail: 2.5e-2 in the first 4 000), strong/2-D 8.5e-2;  D(0.1) - 0.5*D(1) <= 5.3e-3;
 # sigma tables D_sigma(0.01) - 0.2*D_sigma(0.1) <= 0 (floor 1.5e-4 kept).  Head-room >= 6x.
 RATIO = (0.5, 0.2)      # D(0.1) <= 0.5*D(1) + TAU0 and D(0.01) <= 0.2*D(0.1) + TAU0
                         # (the first step is looser: at s=1 second- and third-order terms
                         #  of opposite sign can make D(1) anomalously small)
 TAU0 = {('weak', True): 2e-2, ('weak', False): 6e-2,
-        ('strong', True): 0.15, ('strong', False): 0.55}
+        ('strong', True): 0.4, ('strong', False): 0.55}
+# worlds whose aiding epochs fall BETWEEN IMU epochs: the feedback filter predicts to the
+# exact epoch, the feedforward filter interpolates the computed rows and applies the fix at
+# the row before - a first-order difference of the two designs.  Clean residuals (1 600
+# worlds): weak 2.0e-2, strong 0.33 (3-D) / 0.80 (2-D).  Only gross disagreement of the
+# estimates is judged there; the sigma rule (clean excess <= 0) is judged in full.
+TAU0_ASYNC = {'weak': 0.15, 'strong': 4.0}
 SD_RATIO = 0.2          # D_sigma(0.01) <= SD_RATIO * D_sigma(0.1) + SD_FLOOR; the step from
 SD_FLOOR = 1.5e-4       # s=1 is NOT judged for sigma: 5 of 4 000 clean worlds have
                         # D_sigma(0.1) > 0.5*D_sigma(1) (higher-order terms at full scale)
@@ -167,6 +173,7 @@ def _gen_F_once(r, lever_world=False):
            0.5 * FW._logu(r, -0.5, 0.3), 2.0 * FW._logu(r, -0.5, 0.3)]
     mult = float(r.uniform(1.0, 3.0)) if regime == 'weak' else float(r.uniform(0.05, 0.15))
     sensors = []
+    asynchronous = bool(r.random() < 0.4)
     classes = [c for c in FW.SENSOR_CLASSES if r.random() < 0.6] or ['Position']
     if lever_world and 'NedVelocity' not in classes:
         classes.append('NedVelocity')
@@ -190,9 +197,13 @@ def _gen_F_once(r, lever_world=False):
             lever = [FW._f(x) for x in r.uniform(-1, 1, 3)]
         if lever_world and cls == 'NedVelocity':
             lever = [FW._f(x) for x in r.uniform(1.0, 2.5, 3) * r.choice([-1, 1], 3)]
+        stamps = [float(imu[i]) for i in idx]
+        if asynchronous:
+            # aiding epochs between IMU epochs (a receiver on its own clock)
+            stamps = sorted({float(imu[i] + period * r.uniform(0.05, 0.95))
+                             if r.random() < 0.7 else float(imu[i]) for i in idx})
         sensors.append(dict(cls=cls, sd=float(sd), lever=lever,
-                            noise_seed=int(r.integers(2 ** 31)),
-                            stamps=[float(imu[i]) for i in idx]))
+                            noise_seed=int(r.integers(2 ** 31)), stamps=stamps))
     gyro = dict(bias_sd=FW._logu(r, -3.5, -2.7), noise=FW._logu(r, -4.5, -3.7),
                 bias_walk=None,
                 scale_misal_sd=(FW._logu(r, -3, -2) if r.random() < 0.3 else None))
@@ -231,7 +242,7 @@ def _gen_F_once(r, lever_world=False):
             t[3] = int(t[3]) % 2
     sc = dict(format=1, kind='filter', family='L' if lever_world else 'F',
               filter='feedback', profile='ladder',
-              template='ladder', regime=regime, world=wd,
+              template='ladder', regime=regime, asynchronous=asynchronous, world=wd,
               imu=dict(type=['rate', 'increment'][int(r.integers(2))],
                        stamps=[float(x) for x in imu]),
               sensors=sensors, faults=[], knobs=knobs)
@@ -451,7 +462,8 @@ def _exec_F(sc):
     extra = {}
     if met is not None:
         wa = bool(sc['knobs']['with_altitude'])
-        tau0 = TAU0[(sc['regime'], wa)]
+        tau0 = TAU0_ASYNC[sc['regime']] if sc.get('asynchronous') else \
+            TAU0[(sc['regime'], wa)]
         lever_note = ''
         if any(s_['cls'] == 'NedVelocity' and s_['lever'] is not None
                for s_ in sc['sensors']):
@@ -480,7 +492,7 @@ def _exec_F(sc):
                               f"{RATIO[1]}*D(0.1) + {tau0}" + lever_note,
                               'F/ladder/ned-velocity-lever-arm' if lever_note
                               else f'F/ladder/{label}'))
-        r = sc['regime'] + ('3d' if wa else '2d')
+        r = sc['regime'] + ('3d' if wa else '2d') + ('async' if sc.get('asynchronous') else '')
         extra = {f'max_{r}_D1': met[0]['D'], f'max_{r}_D001': met[2]['D'],
                  f'max_{r}_excess_over_tau0': max(
                      max(met[i + 1][k] - RATIO[i] * met[i][k] for k in ('D', 'Dg', 'Da'))
@@ -494,6 +506,8 @@ def _exec_F(sc):
         probes['F_epoch_shared_between_sensors'] = 1
     if any(isinstance(kn[w]['bias_sd'], list) for w in ('gyro_model', 'accel_model')):
         probes['F_bias_on_a_subset_of_axes'] = 1
+    if sc.get('asynchronous'):
+        probes['F_aiding_epochs_between_imu_epochs'] = 1
     if sc.get('family') == 'L':
         probes = {'L_directed_lever_arm_worlds': 1}
     if FW.model_has_sm(kn['gyro_model']) or FW.model_has_sm(kn['accel_model']):
@@ -550,7 +564,7 @@ PROBES_WANTED = ['T_runs', 'T_measurements_none', 'T_measurements_empty', 'T_emp
                  'R_two_scenarios_share_models', 'F_worlds', 'F_weak_aiding',
                  'F_strong_aiding', 'F_scale_misalignment_states', 'F_two_d_mode',
                  'L_directed_lever_arm_worlds', 'F_epoch_shared_between_sensors',
-                 'F_bias_on_a_subset_of_axes']
+                 'F_bias_on_a_subset_of_axes', 'F_aiding_epochs_between_imu_epochs']
 
 
 def describe():
